@@ -104,7 +104,8 @@ def gen_config(r):
     return {'identity': {'host': host, 'user': user,
                          'ip': '10.1.%d.%d' % (r.randint(0, 255),
                                                r.randint(1, 254)),
-                         'home_is_parent_of_cwd': r.chance(0.3)},
+                         'home_is_parent_of_cwd': r.chance(0.3),
+                         'ip_unresolvable': r.chance(0.1)},
             'clock0': base.isoformat()}
 
 
@@ -455,9 +456,20 @@ class Patches(object):
         g.subprocess = types.SimpleNamespace(
             Popen=lambda *a, **kw: SimPopen(sim, *a, **kw), PIPE=-1)
         ident = self.ident
+        import socket as _socket
+
+        def resolve(h):
+            # the machine's own name may not resolve (no DNS entry, no
+            # /etc/hosts line for a container's host name)
+            if sim.cfg['identity'].get('ip_unresolvable'):
+                sim.ctx.stats['faults']['own_host_name_does_not_resolve'] += 1
+                sim.ctx.nontrivial = True
+                raise _socket.gaierror(-2, 'Name or service not known')
+            return ident['ip']
         g.socket = types.SimpleNamespace(
             gethostname=lambda: ident['host'],
-            gethostbyname=lambda h: ident['ip'])
+            gethostbyname=resolve, gaierror=_socket.gaierror,
+            error=_socket.error, herror=_socket.herror)
         g.getpass = types.SimpleNamespace(getuser=lambda: ident['user'])
         g.os = OsProxy(sim)
         os.makedirs(ident['tmpdir'], exist_ok=True)
